@@ -63,6 +63,8 @@ def _case(draw, unit):
         'C': draw(st.sampled_from([1, 1, 2, 3])),
         'dtype': draw(st.sampled_from(['f64', 'f64', 'f64', 'f64', 'f32'])),
         'wave_form': draw(st.sampled_from(['name', 'name', 'name', 'object', 'tuple', 'tuple'])),
+        # 'per' is the accepted short spelling of 'periodization'
+        'mode_spelling': 'per' if (mode == 'periodization' and draw(st.integers(0, 2)) == 0) else mode,
         # for the tuple form: a rescaled (still perfect-reconstruction) filter bank, analysis (lo*a, hi*b),
         # synthesis (lo/a, hi/b), e.g. the JPEG2000 normalisation
         'fb_scale': draw(st.sampled_from([[1.0, 1.0], [1.0, 1.0], [2 ** 0.5, 2 ** -0.5], [2 ** -0.5, 2 ** 0.5], [2.0, 0.5],
@@ -103,7 +105,7 @@ def _module(case):
     from pytorch_wavelets import DWT1DForward, DWTForward
     cls = DWT1DForward if case['dim'] == 1 else DWTForward
     with dwtu.default_dtype(dwtu.tdt(case['dtype'])):
-        return cls(J=case['J'], wave=wave_arg(case), mode=case['mode'])
+        return cls(J=case['J'], wave=wave_arg(case), mode=case.get('mode_spelling', case['mode']))
 
 
 def _flat(yl, yh):
@@ -119,7 +121,8 @@ def run_case(case):
     per_axis = [dwtu.level_lengths(n, L, mode, J) for n in size]
     in_d1 = any(dwtu.d1_analysis(ns, L, mode) for ns, _ in per_axis)
     may_raise = any(dwtu.reflect_may_raise(ns, L, mode) for ns, _ in per_axis)
-    r.label('dim%d' % dim, mode, 'f32' if f32 else 'f64', 'wave_as_' + case.get('wave_form', 'name'))
+    r.label('dim%d' % dim, mode, 'f32' if f32 else 'f64', 'wave_as_' + case.get('wave_form', 'name'),
+            'mode_spelled_per' if case.get('mode_spelling') == 'per' else None)
     r.label('odd' if any(n % 2 for n in size) else None,
             'short<L' if any(n < L for n in size) else None,
             'J>=2' if J >= 2 else None, 'C>1' if case['C'] > 1 else None,
